@@ -630,7 +630,9 @@ type Guard struct {
 // flagOutcomes: block b ends in an `if` whose condition is decided by the edge through which b was entered: the
 // condition is (the negation of) a phi of b, or compares a phi of b with a constant. Returns, per predecessor, 1 when
 // the condition is true on entry from it, 0 when false, -1 when that edge's value does not decide it.
-func flagOutcomes(b *ssa.BasicBlock) ([]int, bool) {
+func flagOutcomes(b *ssa.BasicBlock) ([]int, bool) { return flagOutcomesD(b, 0) }
+
+func flagOutcomesD(b *ssa.BasicBlock, depth int) ([]int, bool) {
 	if b == nil || len(b.Instrs) == 0 || len(b.Succs) != 2 {
 		return nil, false
 	}
@@ -708,10 +710,15 @@ func flagOutcomes(b *ssa.BasicBlock) ([]int, bool) {
 					eq = 1
 				}
 			}
-		} else if other.IsNil() && (knownNonNil(e, 0) || nilTestedOnEdge(e, b.Preds[k], b) == 0) {
+		} else if other.IsNil() && knownNonNil(e, 0) {
 			eq = 0
-		} else if other.IsNil() && nilTestedOnEdge(e, b.Preds[k], b) == 1 {
-			eq = 1
+		} else if other.IsNil() && depth < 2 {
+			switch nilTestedOnEdge(e, b.Preds[k], b, depth) {
+			case 0:
+				eq = 0
+			case 1:
+				eq = 1
+			}
 		}
 		if eq >= 0 {
 			r := eq
@@ -727,8 +734,8 @@ func flagOutcomes(b *ssa.BasicBlock) ([]int, bool) {
 
 // nilTestedOnEdge: the conditions holding on the edge pred→succ include a test of e against nil: 1 = e is nil,
 // 0 = e is not nil, -1 = no such test.
-func nilTestedOnEdge(e ssa.Value, pred, succ *ssa.BasicBlock) int {
-	for _, g := range edgeGuardList(pred, succ, 2) {
+func nilTestedOnEdge(e ssa.Value, pred, succ *ssa.BasicBlock, depth int) int {
+	for _, g := range edgeGuardList(pred, succ, depth+1) {
 		bo, ok := g.Cond.(*ssa.BinOp)
 		if !ok || (bo.Op != token.EQL && bo.Op != token.NEQ) {
 			continue
@@ -947,7 +954,7 @@ func guardsOfD(b *ssa.BasicBlock, depth int) []Guard {
 			continue
 		}
 		// a branch on a flag: state the conditions under which the flag has the value this side needs
-		if oc, isFlag := flagOutcomes(d); isFlag && depth < 3 {
+		if oc, isFlag := flagOutcomesD(d, depth+1); isFlag && depth < 3 {
 			want := 1
 			if side == 1 {
 				want = 0
